@@ -44,8 +44,14 @@ CLAIMED = {
             _LV + "C14: a conforming source value always yields a value conforming to the destination type; accepted pairs lie inside the documented relation; unlinked fields refused.", _NOTE, "DESIGN.md 5/C14"),
     "C15": ("differential loaders of equivalent spellings on a symbolic datum (CrossHair + z3); structural congruence by labelled native enumeration",
             _LV + "C15: equal/hash-equal/idempotent normal forms inside groups of equivalent hints, unequal across groups (enumeration, labelled), behavioural equivalence on symbolic data.", _NOTE, "DESIGN.md 5/C15"),
+    "C16": ("CrossHair symbolic execution of loaders/dumpers of generated generic class hierarchies; per field a symbolic datum; expected substituted field types known by construction",
+            _LV + "C16: acceptance iff every field datum conforms to the substituted type (strict), dump gives the data back; hierarchies and parametrisations enumerated natively.", _NOTE, "DESIGN.md 5/C16"),
+    "C17": ("differential CrossHair symbolic execution of twin models of six kinds built from one logical spec (loaders, dumpers, converters) on the same input; pydantic/SQLAlchemy with realised pooled data",
+            _LV + "C17: field-wise equal results, equal dumps, same error classes and trails, same response to name_mapping; converters copy every field.", _NOTE, "DESIGN.md 5/C17"),
     "C18": ("CrossHair symbolic execution of the real enum/flag loaders and dumpers: flag value and candidate representation symbolic, classes x providers x option cube enumerated natively",
             _LV + "C18: load(dump(m)) is m for every member/flag combination; loaders accept exactly the representations and reject the rest with LoadError; creation succeeds for every non-excluded class.", _NOTE, "DESIGN.md 5/C18"),
+    "C19": ("hostile keys / field ids / model names enumerated as extra C03/C13 programs with symbolic data (CrossHair), canary for injected text, z3 kernels for the sanitizer alphabet and prefix collisions (reduced scope: the string quantifier cannot cross compile())",
+            _LV + "C19 (reduced scope): generation succeeds and behaviour matches the C03 reference for every enumerated hostile key/id/name; nothing injected is evaluated.", _NOTE, "DESIGN.md 5/C19"),
     "C20": ("CrossHair symbolic execution of real combinators: deep snapshot of argument, two calls, identity-disjointness of built containers",
             _LV + "C20: argument untouched, repeatable, fresh containers.", _NOTE, "DESIGN.md 5/C20"),
 }
